@@ -308,11 +308,28 @@ def run_eager(desc, M):
                 M.check(dc[(x, y, Z2)], "separator is minimal: removing any member reconnects", detail=f"{lab(x)},{lab(y)} | {sep} minus {lab(s)}")
     # latent variant: one latent node, include_latents both ways
     if n >= 3:
-        for l in range(n):
+        latent_sets = [(l,) for l in range(n)] + (list(itertools.combinations(range(n), 2)) if n >= 4 else [])
+        for lset in latent_sets:
+            l = lset[0]
             g2 = cls()
             g2.add_nodes_from([lab(i) for i in range(n)])
             g2.add_edges_from([(lab(u), lab(v)) for u, v in desc["edges"]])
-            g2.latents = {lab(l)}
+            g2.latents = {lab(x) for x in lset}
+            if len(lset) > 1:
+                # stacked / multiple latents: only the separator clauses
+                for x in range(n):
+                    for y in range(n):
+                        if x == y or x in lset or y in lset or E[(min(x, y), max(x, y))]:
+                            continue
+                        sep = g2.minimal_dseparator(lab(x), lab(y))
+                        if sep is None:
+                            continue
+                        Zs = tuple(sorted(inv[s] for s in sep))
+                        M.check(not (set(Zs) & set(lset)), "separator contains no latent node", detail=f"{lab(x)},{lab(y)} | {sep} latents {[lab(q) for q in lset]}")
+                        M.check(not dc[(x, y, Zs)], "returned set d-separates (latent case)", detail=f"{lab(x)},{lab(y)} | {sep} latents {[lab(q) for q in lset]}")
+                        for s in Zs:
+                            M.check(dc[(x, y, tuple(z for z in Zs if z != s))], "separator minimal (latent case)")
+                continue
             for x in range(n):
                 for incl in (False, True):
                     got = g2.active_trail_nodes(lab(x), include_latents=incl)[lab(x)]
